@@ -58,6 +58,7 @@ def check_sorter(cfg, db, chk, builder_pat):
 
 def run(db, chk):
     not_found_table(db, chk)
+    prefix_filter_rule(db, chk)
     check_sorter("ws(walkdir)", db, chk, r"walkdir::WalkDir::sort_by$")
     db2 = facts.load("fs-par")
     check_sorter("fs-par(jwalk)", db2, chk, r"::process_read_dir$")
@@ -110,3 +111,35 @@ def not_found_table(db, chk):
     chk.ob("missing-candidate-is-not-an-error", "ref_contents", ok,
            "kinds treated as `not found`: %s, raw errno values: %s; git also treats ENOTDIR (20) as not found: with refs/tags/a a file, find(\"a/x\") fails on the candidate refs/tags/a/x instead of reaching refs/heads/a/x" % (sorted(kinds), sorted(x for x in raws if x is not None)),
            "%s:%d" % (f.file, f.line), key="not-found-table|ref_contents")
+
+
+def prefix_filter_rule(db, chk):
+    """prefixed iteration: when the prefix ends inside a path component (refs/heads/fo), loose files below the parent directory are filtered by the
+    remainder - which must be matched against the path BELOW THE ITERATION ROOT (foo/bar starts with fo), never against the leaf file name
+    (bar does not, x/foo would)."""
+    from gx.flow import Flow
+    f = db.one(r"^<gix_ref::store_impl::file::loose::iter::SortedLoosePaths as core::iter::traits::iterator::Iterator>::next$")
+    fam = [f] + [g for g in db.closures_of(f) if g.kind == "closure"]
+    n = 0
+    for g in fam:
+        gfl = Flow(g)
+        for c in g.calls():
+            if c.is_(r"::starts_with$") and c.args:
+                n += 1
+                leaf = gfl.derives_from_call(c.args[0], r"Path::file_name$")
+                # ... or through a closure handed to and_then/map on the way
+                sites = {r[2] for r in gfl.roots(c.args[0], stop_named=False, sites=True) if r[0] == "call" and len(r) > 2}
+                for c2 in g.calls():
+                    if c2.block in sites:
+                        for a in c2.args:
+                            if "p" not in a:
+                                continue
+                            for bi, si, pl, rv, ln, mc in g.assigns():
+                                if pl == [a["p"][0]] and rv[0] == "agg" and rv[1] == "closure":
+                                    cn = rv[2]
+                                    if any(h.calls_to(r"Path::file_name$") for h in fam if h.name.endswith(cn) or cn.endswith(h.name.split("::")[-1]) and h.name.startswith(g.name)):
+                                        leaf = True
+                chk.ob("prefix-filter-on-path-below-root", "%s starts_with@%d" % (g.name.split("::")[-1], c.line), not leaf,
+                       "the prefix remainder is compared with the file NAME of a loose reference: with prefix refs/heads/fo the loose ref refs/heads/foo/bar is dropped (a stale packed value is then returned) and refs/heads/x/foo is included",
+                       c.where(), key="prefix-filter|SortedLoosePaths")
+    chk.floor("SortedLoosePaths::next: prefix test", n, 1)
